@@ -204,7 +204,7 @@ func (a *attConn) openSession(url string) error {
 		ClientDescription: &ua.ApplicationDescription{ApplicationURI: "urn:verif:attacker", ApplicationName: &ua.LocalizedText{EncodingMask: ua.LocalizedTextText, Text: "attacker"},
 			ApplicationType: ua.ApplicationTypeClient},
 		EndpointURL: url, SessionName: "attacker", ClientNonce: nonce, RequestedSessionTimeout: 60000,
-	}, nil, 5*time.Second)
+	}, nil, 3*time.Second)
 	if err != nil {
 		return fmt.Errorf("CreateSession: %w", err)
 	}
@@ -217,7 +217,7 @@ func (a *attConn) openSession(url string) error {
 		ClientSignature:    &ua.SignatureData{},
 		UserIdentityToken:  ua.NewExtensionObject(&ua.AnonymousIdentityToken{PolicyID: "anonymous_none"}),
 		UserTokenSignature: &ua.SignatureData{},
-	}, a.token, 5*time.Second)
+	}, a.token, 3*time.Second)
 	if err != nil {
 		return fmt.Errorf("ActivateSession: %w", err)
 	}
